@@ -1,6 +1,294 @@
 /-
-  C09 — property theorems (placeholder: no theorem yet, the property is not claimed).
+  C09 — Raw images and sub-images reproduce their pixel data exactly.
+
+  Property theorems only (helper lemmas: EG/Lemmas/ImageRaw*.lean). All statements are about the
+  model `EG.Model.ImageRaw` (a literal transcription of src/image/{image_raw,sub_image,mod,
+  image_drawable_ext}.rs over the raw model `EG.Model.Raw`) and hold for all image sizes, byte
+  contents, draw offsets, sub-image areas and nesting depths, all seven raw widths and both data
+  orders. Hypotheses:
+    `im.WF`         the length check of `ImageRaw::new` passed, the depth is one of the 7 raw types,
+                    width/height <= i32::MAX (the `as i32` casts of `pixel` wrap above that) and the
+                    buffer holds at most usize::MAX pixels (else `nth`'s saturating add shows);
+    `d.Good`        `d` is such an image or built from one by `sub_image` (`good_sub_image`);
+    `Rect.InRange`  the placed box fits into `i32` coordinates (else the real code overflows).
+
+  Not proved here:
+  -- [V] colours: `C::from(raw)` of the seven colour types is not modelled (colours are raw values): carried by correspondence + oracle only
+  -- [V] target independence of `draw` (Rust parametricity in the `DrawTarget`): the same call list reaches R1 and R2, carried by correspondence + oracle only
 -/
-import EG.Basic.Core
+import EG.Lemmas.ImageRawImage
+import EG.Lemmas.ImageRawRows
 namespace EG.C09
+open EG EG.Raw EG.Img
+
+/-! ### `ImageRaw::new` accepts exactly buffers of the required length; rows are padded -/
+
+/-- `new` succeeds iff the buffer has `bytes_per_row * height` bytes (and then stores its arguments). -/
+theorem new_ok_iff (bits : Nat) (o : Order) (data : List Nat) (size : Sz) (im : ImageRaw) :
+    ImageRaw.new bits o data size = .ok im ↔
+      (data.length = bytesPerRow size.w bits * size.h ∧ im = ⟨bits, o, data, size⟩) :=
+  ImageRaw.new_ok_iff bits o data size im
+
+/-- Otherwise it reports the expected size. -/
+theorem new_error_iff (bits : Nat) (o : Order) (data : List Nat) (size : Sz) (e : Nat) :
+    ImageRaw.new bits o data size = .error e ↔
+      (data.length ≠ bytesPerRow size.w bits * size.h ∧ e = bytesPerRow size.w bits * size.h) :=
+  ImageRaw.new_error_iff bits o data size e
+
+/-- `new_const` panics (`none`) exactly when `new` fails. -/
+theorem new_const_eq (bits : Nat) (o : Order) (data : List Nat) (size : Sz) :
+    ImageRaw.newConst bits o data size =
+      if data.length = bytesPerRow size.w bits * size.h then some ⟨bits, o, data, size⟩ else none :=
+  ImageRaw.newConst_eq bits o data size
+
+/-- A buffer accepted by `new` (of one of the seven raw types, with sizes that survive `as i32` and
+at most `usize::MAX` pixels) is well formed: the hypothesis `WF` of the theorems below. -/
+theorem wf_of_new (bits : Nat) (o : Order) (data : List Nat) (size : Sz) (im : ImageRaw)
+    (h : ImageRaw.new bits o data size = .ok im) (hb : validBits bits = true)
+    (hw : size.w ≤ 2147483647) (hh : size.h ≤ 2147483647) (hf : Fits bits data) : im.WF :=
+  ImageRaw.wf_of_new h hb hw hh hf
+example : ImageRaw.new 1 .le [0xAA, 0x00, 0x55, 0xFF, 0xAA, 0x80] ⟨9, 3⟩ = .ok exIm :=
+  (ImageRaw.new_ok_iff _ _ _ _ _).mpr ⟨by decide, rfl⟩
+
+/-- Rows are padded to whole bytes: `bytes_per_row` is the least number of bytes holding `w` pixels. -/
+theorem bytes_per_row_is_ceiling (w bits : Nat) :
+    w * bits ≤ 8 * bytesPerRow w bits ∧ 8 * bytesPerRow w bits < w * bits + 8 :=
+  ImageRaw.bytesPerRow_spec w bits
+
+/-- The padded row width is at least the width (no underflow in `row_skip`) ... -/
+theorem width_le_data_width (im : ImageRaw) (hb : validBits im.bits = true) : im.size.w ≤ im.dataWidth :=
+  ImageRaw.width_le_dataWidth hb
+example : validBits exIm.bits = true := by decide
+
+/-- ... and exceeds it by less than one byte worth of pixels (no padding for depths >= 8). -/
+theorem data_width_padding (im : ImageRaw) (hb : validBits im.bits = true) :
+    (im.bits < 8 → im.dataWidth = bytesPerRow im.size.w im.bits * (8 / im.bits) ∧
+        im.dataWidth < im.size.w + 8 / im.bits) ∧
+      (¬ im.bits < 8 → im.dataWidth = im.size.w) :=
+  ⟨fun h => ⟨ImageRaw.dataWidth_sub_byte h, ImageRaw.dataWidth_lt hb h⟩, ImageRaw.dataWidth_whole_byte⟩
+
+/-- An accepted buffer holds exactly `data_width * height` pixels. -/
+theorem pixel_count (im : ImageRaw) (hw : im.WF) :
+    pixelCount im.bits im.data.length = im.dataWidth * im.size.h := ImageRaw.pixelCount_eq hw
+example : exIm.WF := exIm_wf
+example : exIm24.WF := exIm24_wf
+
+/-! ### `pixel` -/
+
+/-- `pixel(p)` is `None` exactly outside the bounding box. -/
+theorem pixel_none_iff (im : ImageRaw) (hw : im.WF) (p : Pt) :
+    im.pixel p = none ↔ im.boundingBox.contains p = false := ImageRaw.pixel_none_iff hw p
+
+/-- The same claim for every size a `u32` can hold (no `<= i32::MAX` guard) ... -/
+def PixelNoneIffAllSizes : Prop :=
+  ∀ (im : ImageRaw) (p : Pt), validBits im.bits = true →
+    im.data.length = bytesPerRow im.size.w im.bits * im.size.h →
+    (im.pixel p = none ↔ im.boundingBox.contains p = false)
+
+/-- ... is false: `pixel` compares with `width as i32`, which wraps. Witness: the `2^31 x 1` one bit
+image (`2^28` bytes), `pixel((0,0)) = None` although `(0,0)` is inside the bounding box. Replayed on
+the real code by the op `image.wide 1 0 2147483648 1` (see corpus/C09.ops); far outside the display
+scale, so `pixel_none_iff` carries the guard `WF.wI32`/`WF.hI32`. -/
+theorem pixel_none_iff_all_sizes_false : ¬ PixelNoneIffAllSizes := by
+  intro h
+  have h1 := h ⟨1, .le, List.replicate 268435456 0, ⟨2147483648, 1⟩⟩ ⟨0, 0⟩ (by decide)
+    (by rw [List.length_replicate]; decide)
+  rw [ImageRaw.pixel_none_of_width_wraps _ rfl] at h1
+  have h2 : (ImageRaw.boundingBox ⟨1, .le, List.replicate 268435456 0, ⟨2147483648, 1⟩⟩).contains ⟨0, 0⟩ = true := by
+    rw [ImageRaw.contains_boundingBox]; simp only; omega
+  rw [h2] at h1
+  exact absurd (h1.mp rfl) (by decide)
+
+/-- Inside, `pixel((x, y))` is raw pixel `x + y * data_width` of the buffer (rows start at
+multiples of the padded width, i.e. on byte boundaries). -/
+theorem pixel_eq_load (im : ImageRaw) (hw : im.WF) (p : Pt) :
+    im.pixel p =
+      if im.boundingBox.contains p = true then
+        load im.bits im.order im.data (p.x.toNat + p.y.toNat * im.dataWidth)
+      else none := ImageRaw.pixel_eq hw p
+
+/-- **Rows are padded to whole bytes**: row `y` occupies the bytes
+`data[y * bytes_per_row .. (y + 1) * bytes_per_row]` and pixel `(x, y)` is raw pixel `x` of that
+slice — every depth, both data orders. -/
+theorem pixel_row_aligned (im : ImageRaw) (hw : im.WF) (x y : Nat) (hx : x < im.size.w) (hy : y < im.size.h) :
+    im.pixel ⟨x, y⟩ = load im.bits im.order (im.rowBytes y) x := ImageRaw.pixel_row_aligned hw hx hy
+example : exIm.rowBytes 1 = [0x55, 0xFF] ∧ exIm24.rowBytes 1 = [7, 8, 9, 10, 11, 12] := by decide
+
+example : exIm.pixel ⟨8, 1⟩ = some 1 ∧ exIm.pixel ⟨8, 0⟩ = some 0 ∧ exIm.pixel ⟨9, 0⟩ = none := by decide
+
+/-! ### `ContiguousPixels` and the colour stream of `draw` -/
+
+/-- The `ContiguousPixels` state machine yields exactly its closed form (the raw pixels at the
+indices it still has to read, up to the first one beyond the buffer), from every reachable state. -/
+theorem contiguous_pixels_closed_form (s : CP) (hs : s.Ok) : s.toList = s.rest := CP.toList_eq s hs
+example : (CP.new exIm ⟨3, 2⟩ 17 13).Ok := ⟨by decide, by unfold Fits; decide, by decide⟩
+
+/-- **`draw_stream`**: the whole image is drawn by one `fill_contiguous` of its bounding box whose
+colour stream is `[pixel p | p row-major]`, exactly `width * height` colours. -/
+theorem draw_stream (im : ImageRaw) (hw : im.WF) :
+    ∃ cs, im.draw = [Call.fillContiguous im.boundingBox cs] ∧
+      cs.map some = im.boundingBox.points.map im.pixel ∧
+      cs.length = im.size.w * im.size.h := by
+  rw [Rect.points_eq_spec]; exact ImageRaw.draw_eq hw
+
+/-- `draw_sub_image` draws nothing unless the area is non-empty and inside the image ... -/
+theorem draw_sub_image_rejects (im : ImageRaw) (a : Rect) (h : ¬ im.Accepts a) : im.drawSubImage a = [] :=
+  ImageRaw.drawSubImage_reject h
+example : ¬ exIm.Accepts ⟨⟨7, 1⟩, ⟨3, 1⟩⟩ := by decide
+
+/-- ... and otherwise hands `fill_contiguous` exactly the `width * height` pixels of the area,
+row-major (`sub_stream_length`: the stream is not one row too long). -/
+theorem draw_sub_image_stream (im : ImageRaw) (hw : im.WF) (a : Rect) (h : im.Accepts a) :
+    ∃ cs, im.drawSubImage a = [Call.fillContiguous ⟨Pt.zero, a.size⟩ cs] ∧
+      cs.map some = (Rect.points ⟨Pt.zero, a.size⟩).map (fun p => im.pixel (a.tl + p)) ∧
+      cs.length = a.size.w * a.size.h := by
+  rw [Rect.points_eq_spec]; exact ImageRaw.drawSubImage_accept hw h
+example : exIm.Accepts ⟨⟨6, 1⟩, ⟨3, 2⟩⟩ := by decide
+example : exIm.drawSubImage ⟨⟨6, 1⟩, ⟨3, 2⟩⟩ = [Call.fillContiguous ⟨⟨0, 0⟩, ⟨3, 2⟩⟩ [0, 1, 1, 1, 0, 1]] := by
+  decide
+
+/-! ### sub-images -/
+
+/-- `sub_image(area)` stores the area clipped to the parent's box ... -/
+theorem sub_area_eq (d : Drawable) (area : Rect) :
+    d.subImage area = .sub d (d.boundingBox.intersection area) ∧
+      (d.subImage area).size = (d.boundingBox.intersection area).size := ⟨rfl, rfl⟩
+
+/-- ... which contains exactly the common points of the parent's box and the area (zero sized if
+there is none) and is therefore empty or inside the parent. -/
+theorem sub_area_points (d : Drawable) (area : Rect) (p : Pt) :
+    (d.boundingBox.intersection area).contains p = true ↔
+      (d.boundingBox.contains p = true ∧ area.contains p = true) :=
+  Rect.mem_intersection _ _ _
+
+theorem sub_area_zero_of_disjoint (d : Drawable) (area : Rect)
+    (h : ∀ p, ¬ (d.boundingBox.contains p = true ∧ area.contains p = true)) :
+    (d.boundingBox.intersection area).isZeroSized = true :=
+  Rect.intersection_zero_of_disjoint _ _ h
+example : ∀ p, ¬ ((Drawable.raw exIm).boundingBox.contains p = true ∧
+    (⟨⟨9, 0⟩, ⟨2, 2⟩⟩ : Rect).contains p = true) := by
+  intro p h; rw [Rect.contains_iff, Rect.contains_iff] at h
+  simp only [Drawable.boundingBox, Drawable.size, exIm, Pt.zero] at h; omega
+
+/-- Everything built by `sub_image` from a well-formed raw image is `Good`. -/
+theorem good_sub_image (d : Drawable) (h : d.Good) (area : Rect) : (d.subImage area).Good :=
+  Drawable.good_subImage h area
+example : (Drawable.raw exIm).Good := exIm_wf
+
+/-- **`sub_stream`**: a drawable of any nesting depth draws, by one `fill_contiguous` of the box of
+its size, exactly `width * height` colours: the picture `pixelSpec` row-major — or makes no call
+at all when it is an empty sub-image. (`pixelSpec` of a sub-image is the parent's `pixelSpec`
+shifted by the clipped area's corner, see `sub_pixel_spec`.) -/
+theorem sub_stream (d : Drawable) (h : d.Good) :
+    (∃ cs, d.draw = [Call.fillContiguous d.boundingBox cs] ∧
+        cs.map some = d.boundingBox.points.map d.pixelSpec ∧
+        cs.length = d.size.w * d.size.h) ∨
+      (d.draw = [] ∧ d.boundingBox.isZeroSized = true) := by
+  rw [Rect.points_eq_spec]; exact Drawable.draw_spec h
+
+/-- **`sub_stream_length`**: whatever a good drawable (raw image, sub-image, nested sub-image)
+hands to `fill_contiguous` has exactly `width * height` colours for the area it names — also when
+more image data follows the last row of a sub-image. -/
+theorem sub_stream_length (d : Drawable) (h : d.Good) (a : Rect) (cs : List Color)
+    (hc : Call.fillContiguous a cs ∈ d.draw) :
+    a = d.boundingBox ∧ cs.length = a.size.w * a.size.h := Drawable.stream_length h hc
+example : Call.fillContiguous ⟨⟨0, 0⟩, ⟨3, 2⟩⟩ [0, 1, 1, 1, 0, 1] ∈
+    ((Drawable.raw exIm).subImage ⟨⟨6, 1⟩, ⟨9, 2⟩⟩).draw := by decide
+
+/-- The picture of a sub-image: the parent's pixels inside the clipped area, re-based to the origin. -/
+theorem sub_pixel_spec (d : Drawable) (area : Rect) (p : Pt) :
+    (d.subImage area).pixelSpec p =
+      if (d.subImage area).boundingBox.contains p = true then
+        d.pixelSpec ((d.boundingBox.intersection area).tl + p)
+      else none := rfl
+
+/-- In root coordinates: a good drawable shows the root image's `pixel`s at `origin + p`, and its
+region lies inside the root image. -/
+theorem pixel_spec_root (d : Drawable) (h : d.Good) (p : Pt) (hp : d.boundingBox.contains p = true) :
+    d.pixelSpec p = d.root.pixel (d.origin + p) := Drawable.pixelSpec_root h p hp
+example : ((Drawable.raw exIm).subImage ⟨⟨6, 1⟩, ⟨9, 9⟩⟩).boundingBox.contains ⟨2, 1⟩ = true := by decide
+
+/-- **`nested_sub_image`**: nested sub-images compose — the inner area is clipped to the outer
+sub-image's box and re-based by the outer (clipped) area's corner; `draw` forwards the re-based
+area to the parent's `draw_sub_image`. -/
+theorem nested_sub_image (d : Drawable) (a1 a2 : Rect) :
+    ((d.subImage a1).subImage a2).draw =
+        d.drawSubImage (((d.subImage a1).boundingBox.intersection a2).translate
+          (d.boundingBox.intersection a1).tl) ∧
+      ∀ p, ((d.subImage a1).subImage a2).boundingBox.contains p = true →
+        ((d.subImage a1).subImage a2).pixelSpec p =
+          d.pixelSpec ((d.boundingBox.intersection a1).tl +
+            (((d.subImage a1).boundingBox.intersection a2).tl + p)) :=
+  ⟨rfl, fun p hp => Image.nested_pixelSpec d a1 a2 p hp⟩
+example : (((Drawable.raw exIm).subImage ⟨⟨1, 1⟩, ⟨8, 3⟩⟩).subImage ⟨⟨1, 0⟩, ⟨2, 2⟩⟩).boundingBox.contains
+    ⟨1, 1⟩ = true := by decide
+
+/-! ### `Image`: what ends up on the target -/
+
+/-- **`draw_exact`** (native-fill target, which drains the colour iterator): drawing an image of
+any good drawable at offset `o` on a target with box `B` sets target point `q` to the picture's
+pixel at `q - o` iff `q` is in the image's bounding box (and in `B`), and touches nothing else. For
+a raw image the picture is `pixel`. -/
+theorem draw_exact (d : Drawable) (h : d.Good) (o : Pt) (hr : (Image.new d o).boundingBox.InRange)
+    (B : Rect) (q : Pt) :
+    runNative B (Image.new d o).draw q =
+      if B.contains q = true ∧ (Image.new d o).boundingBox.contains q = true then d.pixelSpec (q - o)
+      else none := by
+  rw [Image.runNative_draw _ h hr]
+  unfold Image.picture
+  by_cases hb : B.contains q = true <;> by_cases hc : (Image.new d o).boundingBox.contains q = true <;>
+    simp only [hb, hc, and_self, and_false, and_true, ↓reduceIte, Bool.false_eq_true] <;> rfl
+example : (Image.new (.raw exIm) ⟨-4, 7⟩).boundingBox.InRange := by decide
+
+/-- The same on a target that implements `draw_iter` only (trait defaults). -/
+theorem draw_exact_default (d : Drawable) (h : d.Good) (o : Pt) (hr : (Image.new d o).boundingBox.InRange)
+    (B : Rect) (q : Pt) :
+    runDefault B (Image.new d o).draw q =
+      if B.contains q = true ∧ (Image.new d o).boundingBox.contains q = true then d.pixelSpec (q - o)
+      else none := by
+  rw [Image.runDefault_eq_runNative _ h]; exact draw_exact d h o hr B q
+
+/-- For a raw image: target point `o + p` gets `pixel(p)` for every `p` of the bounding box. -/
+theorem draw_exact_raw (im : ImageRaw) (hw : im.WF) (o : Pt)
+    (hr : (Image.new (.raw im) o).boundingBox.InRange) (B : Rect) (p : Pt) :
+    runNative B (Image.new (.raw im) o).draw (p + o) =
+      if B.contains (p + o) = true then im.pixel p else none := by
+  rw [draw_exact (.raw im) hw o hr, pt_add_sub_cancel]
+  simp only [Drawable.pixelSpec]
+  by_cases hb : B.contains (p + o) = true
+  · by_cases hc : (Image.new (.raw im) o).boundingBox.contains (p + o) = true
+    · simp only [hb, hc, and_self, ↓reduceIte]
+    · have : im.pixel p = none := by
+        rw [ImageRaw.pixel_none_iff hw]
+        rw [Image.boundingBox_new, Rect.contains_iff] at hc
+        cases hq : im.boundingBox.contains p with
+        | false => rfl
+        | true =>
+          rw [ImageRaw.contains_boundingBox] at hq
+          simp only [Drawable.size, Pt.add_x, Pt.add_y] at hc
+          omega
+      simp only [hb, hc, and_false, ↓reduceIte, this, Bool.false_eq_true]
+  · simp only [hb, false_and, ↓reduceIte, Bool.false_eq_true]
+
+/-- **`sub_image_eq_cropped_image`**: drawing `parent.sub_image(area)` at `o` equals drawing an
+image of the clipped area's size whose pixel `p` is the parent's picture at `clipped.top_left + p`. -/
+theorem sub_image_eq_cropped_image (d : Drawable) (h : d.Good) (area : Rect) (o : Pt)
+    (hr : (Image.new (d.subImage area) o).boundingBox.InRange) (B : Rect) (q : Pt) :
+    runNative B (Image.new (d.subImage area) o).draw q =
+      if B.contains q = true then
+        (if (⟨o, (d.boundingBox.intersection area).size⟩ : Rect).contains q = true then
+          d.pixelSpec ((d.boundingBox.intersection area).tl + (q - o))
+        else none)
+      else none := by
+  rw [Image.runNative_draw _ (Drawable.good_subImage h area) hr, Image.picture_subImage]
+example : (Image.new ((Drawable.raw exIm).subImage ⟨⟨6, 1⟩, ⟨9, 9⟩⟩) ⟨5, -1⟩).boundingBox.InRange := by decide
+
+/-- **`with_center`**: the image is placed so that its bounding box is centred on the given point
+(`Rectangle::with_center`, C16), and is otherwise an `Image::new` at that corner. -/
+theorem with_center (d : Drawable) (c : Pt) :
+    (Image.withCenter d c).boundingBox.center = c ∧
+      (Image.withCenter d c).boundingBox = Rect.withCenter c d.size ∧
+      Image.withCenter d c = Image.new d (Rect.withCenter c d.size).tl :=
+  ⟨Image.withCenter_center d c, Image.withCenter_boundingBox d c, rfl⟩
+
 end EG.C09
